@@ -6,7 +6,7 @@ P = {k: v for k, v in json.load(open(os.path.join(HERE, 'contracts', 'properties
 TEXT = {
  'C01': 'Verus proves, for every configuration, size, engine and history, that decode returns exactly the reference erasure decoding dec_*_ref of what was given and encode the reference encoding enc_*_ref (R-layer), and that the reference decoder applied to any original_count-or-more received shards of a reference codeword returns every missing original, for both rates and the rule-selected default (M3: LCH basis as polynomials, derivative lemma, locator, degree count). The native all-subsets round trips remain as an independent cross-check.',
  'C02': 'Verus proves encode == enc_high_ref / enc_low_ref / rule-selected (FFT/IFFT formula over GF(2^16) from first principles) for all inputs and histories, and that these reference encoders equal the closed-form scaled Cauchy matrix of the property statement slot by slot (M2: LCH basis = polynomials, interpolation uniqueness, Lagrange form on aligned cosets). The native closed-form oracle remains as an independent cross-check.',
- 'C03': 'One Engine trait contract against one reference spec; every engine implementation (Naive, NoSimd, Ssse3, Avx2, DefaultEngine - schedules and leaf kernels) is verified against it, so they agree wherever the contract defines the output. The x86 intrinsics are an assumed byte-wise model, cross-checked natively on all (symbol, log_m) pairs; Neon is not reachable on this host.',
+ 'C03': 'One Engine trait contract against one reference spec; every engine implementation (Naive, NoSimd, Ssse3, Avx2, DefaultEngine - schedules and leaf kernels) is verified against it, so they agree wherever the contract defines the output. The x86 intrinsics are an assumed byte-wise model, cross-checked natively on all (symbol, log_m) pairs; Neon (aarch64 view) is verified likewise over an assumed byte-wise model of its seven intrinsics, which cannot be cross-checked on this host.',
  'C04': 'Byte placement (insert / undo / accessors) and slot independence (truncation commutes with every transform) are proved; sizes are unbounded in the proof.',
  'C05': 'Every result is proved equal to a function of the configuration and the shards added this round (orig_sv / received positions only); stale work memory is universally quantified in the proof.',
  'C06': 'Exact error values, Ok on valid use and absence of panics (overflow, index, assert!, unreachable!) are proof obligations of every public function.',
@@ -18,7 +18,7 @@ TEXT = {
  'C12': 'Accessors, iterators and Drop against the work-space view, for all indexes.',
  'C13': 'Additivity, zero and scalar multiples (homogeneity: right-multiplications of the shift-xor field commute) of enc_high_ref / enc_low_ref proved by induction over layers and chunks, on top of the proved encode == enc_*_ref; every engine kernel is proved to be xor / multiplication by a data-independent constant.',
  'C14': 'target_feature entry points require cpu_has(f); DefaultEngine::new / eval_poly proved to call them only under the detection result and to pick the best reported ISA, in both platform views (x86_64: AVX2 > SSSE3 > NoSimd; aarch64: Neon > NoSimd).',
- 'C15': 'Primitives proved equal to their reference networks over a field defined from 0x1002D and the Cantor basis (field laws, primitivity of x mechanised); fft_ref proved to evaluate the LCH-basis polynomial at skew_delta + i and ifft_ref to be its exact inverse (M1); eval_poly_ref proved to be the sum of logs of (x xor j) over marked j != x modulo 65535 (XOR-convolution theorem, M4); all five tables proved equal to their definitions, skew = log of the normalised subspace polynomials; AVX2/SSSE3 kernels proved over a byte-wise model of the intrinsics, Neon schedules in the aarch64 view.',
+ 'C15': 'Primitives proved equal to their reference networks over a field defined from 0x1002D and the Cantor basis (field laws, primitivity of x mechanised); fft_ref proved to evaluate the LCH-basis polynomial at skew_delta + i and ifft_ref to be its exact inverse (M1); eval_poly_ref proved to be the sum of logs of (x xor j) over marked j != x modulo 65535 (XOR-convolution theorem, M4); all five tables proved equal to their definitions, skew = log of the normalised subspace polynomials; AVX2/SSSE3 kernels proved over a byte-wise model of the intrinsics, Neon schedules and kernels likewise in the aarch64 view.',
  'C17': 'Allocation is not observable by the verifiers: proxy (work buffer identity, proved) plus a counting allocator natively (bounded).',
 }
 checks = []
